@@ -115,7 +115,13 @@ def gate_sites(world, objs, sites, closes):
             # custom async iterator with an aclose() that counts
             if isinstance(orig, list):
                 def mk2(orig, key=key):
+                    counter = [0]
+
                     def fn(path, args):
+                        # one log key per iterator object: two streams over the same field value are two sources
+                        inst = f"{key}" + ("" if not counter[0] else f"~{counter[0]}")
+                        counter[0] += 1
+
                         class It:
                             def __init__(self):
                                 self.i = 0
@@ -127,15 +133,15 @@ def gate_sites(world, objs, sites, closes):
                                 i = self.i
                                 self.i += 1
                                 if i == 0:
-                                    closes.append(("started", key))
+                                    closes.append(("started", inst))
                                 if i >= len(orig):
                                     await world.gate(f"{key}#end", None, kind="src")
-                                    closes.append(("finished", key))
+                                    closes.append(("finished", inst))
                                     raise StopAsyncIteration
                                 return await world.gate(f"{key}#{i}", orig[i], kind="src")
 
                             async def aclose(self):
-                                closes.append(("closed", key))
+                                closes.append(("closed", inst))
                         return It()
                     return fn
                 d[fname] = mk2(orig)
